@@ -203,6 +203,37 @@ fn setting_num(text: &str, key: &str) -> Option<f64> {
     tok.parse().ok()
 }
 
+/// label -> text of the labelled group of the settings block: a line whose text has a ':'
+/// before any '=' starts a group, lines without a label continue the current one (the
+/// general lines, recognised by "time limit" / "tol_feas", belong to no group)
+fn settings_groups(text: &str) -> std::collections::BTreeMap<String, String> {
+    let mut out: std::collections::BTreeMap<String, String> = Default::default();
+    let mut cur: Option<String> = None;
+    for line in text.lines() {
+        let t = line.trim();
+        let colon = t.find(':');
+        let eq = t.find('=');
+        let labelled = match (colon, eq) {
+            (Some(c), Some(e)) => c < e,
+            (Some(_), None) => true,
+            _ => false,
+        };
+        if labelled {
+            let label = t[..colon.unwrap()].trim().to_string();
+            let rest = t[colon.unwrap() + 1..].to_string();
+            out.entry(label.clone()).or_default().push_str(&rest);
+            cur = Some(label);
+        } else if t.contains("time limit") || t.contains("tol_feas") {
+            cur = None;
+        } else if let Some(c) = &cur {
+            let e = out.entry(c.clone()).or_default();
+            e.push('\n');
+            e.push_str(t);
+        }
+    }
+    out
+}
+
 fn setting_bool(text: &str, key: &str) -> Option<bool> {
     let i = text.find(key)?;
     let rest = &text[i + key.len()..];
@@ -389,6 +420,34 @@ pub fn check_log(
             v.push(Violation::new(
                 "C20.header_settings",
                 format!("{}: header {} {:?}, settings value {:e}", tag, k, got, want),
+            ));
+        }
+    }
+    // the labelled groups ("static reg :", "dynamic reg:", "iter refine:", "equilibrate:") with
+    // their continuation lines; a value that is shown must be the value in force (a key that
+    // a layout change no longer shows is not demanded)
+    let groups = settings_groups(st);
+    let grouped: [(&str, &str, f64, f64); 11] = [
+        ("static reg", "ϵ1 =", s.static_regularization_constant, 0.051 * s.static_regularization_constant),
+        ("static reg", "ϵ2 =", s.static_regularization_proportional, 0.051 * s.static_regularization_proportional),
+        ("dynamic reg", "ϵ =", s.dynamic_regularization_eps, 0.051 * s.dynamic_regularization_eps),
+        ("dynamic reg", "δ =", s.dynamic_regularization_delta, 0.051 * s.dynamic_regularization_delta),
+        ("iter refine", "reltol =", s.iterative_refinement_reltol, 0.051 * s.iterative_refinement_reltol),
+        ("iter refine", "abstol =", s.iterative_refinement_abstol, 0.051 * s.iterative_refinement_abstol),
+        ("iter refine", "max iter =", s.iterative_refinement_max_iter as f64, 0.0),
+        ("iter refine", "stop ratio =", s.iterative_refinement_stop_ratio, 0.0501),
+        ("equilibrate", "min_scale =", s.equilibrate_min_scaling, 0.051 * s.equilibrate_min_scaling),
+        ("equilibrate", "max_scale =", s.equilibrate_max_scaling, 0.051 * s.equilibrate_max_scaling),
+        ("equilibrate", "max iter =", s.equilibrate_max_iter as f64, 0.0),
+    ];
+    for (g, k, want, tol) in grouped {
+        let Some(text) = groups.get(g) else { continue };
+        let Some(got) = setting_num(text, k) else { continue };
+        with_sim(|s| s.probe("c20_header_group_setting_checked"));
+        if (got - want).abs() > tol + 1e-9 * want.abs() {
+            v.push(Violation::new(
+                "C20.header_settings",
+                format!("{}: header group {:?} shows {} {:e}, settings value {:e}", tag, g, k, got, want),
             ));
         }
     }
